@@ -28,7 +28,9 @@ type event struct {
 	Cmd  int
 }
 
-var selArgs = []string{"0", "1", "2", "15", "16", "-1", "", "a", "1.5", "+1", "01", "99999999999999999999", " 1"}
+var selArgs = []string{"0", "1", "2", "15", "16", "-1", "", "a", "1.5", "+1", "01", "99999999999999999999", " 1",
+	// spellings another integer parser would take (base prefixes, digit separators, octal)
+	"0x1", "0b1", "0o1", "1_0", "010"}
 
 func alphabet() [][]string {
 	var a [][]string
@@ -426,7 +428,7 @@ func main() {
 	cov := map[string]interface{}{
 		"states": states, "transitions": transitions, "traces_validated_against_impl": transitions, "samples": samples, "exhaustive": exhaustive,
 		"configurations": perCfg, "alphabet_size": len(al),
-		"rule": "for each (database count, connections, commands per connection): BFS over all merges of the connections' command sequences (SELECT with 13 argument forms + wrong arities, SET/GET/DEL/KEYS/EXISTS/APPEND) issued through Manager.Handle on in-memory connections; state = model databases + per-connection selection + remaining budgets; every reply compared with the per-connection model, every database dump compared with its model keyspace",
+		"rule": "for each (database count, connections, commands per connection): BFS over all merges of the connections' command sequences (SELECT with 18 argument forms + wrong arities, SET/GET/DEL/KEYS/EXISTS/APPEND) issued through Manager.Handle on in-memory connections; state = model databases + per-connection selection + remaining budgets; every reply compared with the per-connection model, every database dump compared with its model keyspace",
 	}
 	os.Exit(rep.Finish(cov, []string{"commands are issued one at a time (an interleaving is a merge of the connections' sequences); true simultaneity of SELECT and data commands is covered by C05's race pass"}))
 }
